@@ -16,8 +16,20 @@ accept / ambiguity-ValueError / KeyError, index level names, columns.  Monitor:
 every consumer gives the same outcome and the same numbers on the pipeline's
 table and on the same data in a plain default-indexed table, and no stage
 touches its caller's table.
+
+Route T.  tools/py2coq_filtering.py re-translates the CURRENT text of
+trackpy/filtering.py (filter_stubs, filter_clusters, filter, bust_ghosts,
+bust_clusters) and of pandas_sort / guess_pos_columns in trackpy/utils.py into
+coq/Gen/filtering.v before the proofs are built (pandas operations stay named
+primitives: the record `pandas` of Model/PyFiltering.v, interpreted by the three
+hand-written models).  Proofs/TrajGen.v proves the generated functions equal to
+the models for all inputs and Properties/C20.v restates the headline theorems
+for them (C20_gen_*).  A source that leaves the translatable subset, or whose
+translation no longer satisfies those proofs, is reported through
+chk.proof_broken; parts (a) and (b) still run, so a concrete failing input is
+searched for as well.
 """
-import json, itertools, math
+import json, itertools, math, os, sys, hashlib
 import numpy as np
 import pandas as pd
 from fractions import Fraction
@@ -26,6 +38,74 @@ from common import cZ, cN, cnat, cQ, clist, copt
 
 IMPORTS = ("From Coq Require Import String.\n"
            "From TP Require Import Model.TrajFilter Model.TrajLayout.")
+
+TRANSLATOR = os.path.join(common.VERIF, 'tools', 'py2coq_filtering.py')
+GEN = os.path.join(common.COQ, 'Gen', 'filtering.v')
+
+
+# =============================================================================
+# translator / build
+# =============================================================================
+def regenerate(chk):
+    """re-run the translator on the current source; returns (ok, text-or-log)"""
+    rc, out = common.sh([sys.executable, TRANSLATOR, '--repo', common.REPO, '--stdout'], timeout=60)
+    if rc != 0:
+        return False, out
+    with common.Lock(os.path.join(common.COQ, '.build.lock')):
+        old = open(GEN).read() if os.path.exists(GEN) else None
+        if old != out:
+            os.makedirs(os.path.dirname(GEN), exist_ok=True)
+            tmp = GEN + '.tmp%d' % os.getpid()
+            with open(tmp, 'w') as f:
+                f.write(out)
+            os.replace(tmp, GEN)
+            chk.tally('Gen/filtering.v rewritten (source differs from last run)')
+        else:
+            chk.tally('Gen/filtering.v unchanged')
+    return True, out
+
+
+def ensure_model(chk):
+    """the executable hand-written models are needed by the correspondence run even when the translation
+    or a proof about the generated functions is broken"""
+    def fresh(v):
+        vo = os.path.join(common.COQ, v + 'o')
+        return os.path.exists(vo) and os.path.getmtime(vo) >= os.path.getmtime(os.path.join(common.COQ, v))
+    files = ('Model/TrajFilter.v', 'Model/TrajLayout.v')
+    if all(fresh(v) for v in files):
+        return True
+    with common.Lock(os.path.join(common.COQ, '.build.lock')):
+        for v in files:
+            rc, out = common.sh('timeout 300 coqc -Q . TP %s' % v, timeout=330, cwd=common.COQ)
+            if rc != 0:
+                chk.proof_broken(v, out)
+                return False
+    return True
+
+
+def build(chk):
+    """translator -> cone of Properties/C20.v; returns True when the executable models are available"""
+    ok, text = regenerate(chk)
+    if not ok:
+        chk.proof_broken('translation tools/py2coq_filtering.py (trackpy/filtering.py or pandas_sort / guess_pos_columns in '
+                         'trackpy/utils.py left the translatable subset)', text)
+        chk.build = dict(obligations=0, discharged=0, assumptions=[], files=[], theorems=[])
+    else:
+        for attempt in range(3):
+            b = chk.coq()
+            if open(GEN).read() == text:
+                break
+            # another run (different TRACKPY_REPO) rewrote the generated file in between: redo
+            chk.violations = [v for v in chk.violations if not v[0].startswith('proof:')]
+            regenerate(chk)
+        chk.notes.append('Gen/filtering.v sha1 %s generated from %s' % (hashlib.sha1(text.encode()).hexdigest()[:12], common.REPO))
+        if not b['ok']:
+            # say which statement about the generated functions no longer checks
+            with common.Lock(os.path.join(common.COQ, '.build.lock')):
+                rc, out = common.sh('timeout 600 make Proofs/TrajGen.vo 2>&1 | tail -25', timeout=630, cwd=common.COQ)
+            chk.notes.append('make Proofs/TrajGen.vo (generated functions = models): ' + out[-2500:])
+    return ensure_model(chk)
+
 
 PRODUCERS = ['link', 'link_partial', 'filter_stubs', 'filter_clusters', 'subtract_drift']
 CONSUMERS = PRODUCERS + ['compute_drift', 'msd', 'imsd', 'emsd', 'cluster', 'proximity', 'relate_frames']
@@ -698,7 +778,8 @@ def run_compose(chk):
 # =============================================================================
 def run(chk):
     common.quiet_trackpy()
-    chk.coq()
+    if not build(chk):
+        return
     run_filter_corpus(chk)
     run_filters(chk, 400 if chk.tier == 'quick' else 5000)
     run_compose(chk)
@@ -712,6 +793,11 @@ def run(chk):
         "4 column-deficient tables at depth <= 1; non-trivial = the consumer received a table whose index is not the plain unnamed one.  distinct by content hash")
     chk.coverage['exhaustive'] = True
     chk.assumptions += [
+        "Gen/filtering.v is produced from the current trackpy/filtering.py and trackpy/utils.py (pandas_sort, guess_pos_columns) by "
+        "tools/py2coq_filtering.py (trusted, fail-closed; subset, conventions and the list of pandas primitives in its docstring and in "
+        "Model/PyFiltering.v); pandas_sort's *args/**kwargs are the flag inplace (the translator checks every call site in trackpy/); "
+        "an Index object shared between two tables (renaming one renames the other) is not modelled; link / link_partial / "
+        "compute_drift / subtract_drift / cluster around the generated helpers are the hand-written stage skeletons (C13 / C18 own their text)",
         "pandas semantics are modelled, not verified: groupby-filter algorithm (sorted unique non-NaN keys, positions, np.sort, take), "
         "Series.count/mean skipping NaN, linear-interpolation quantile, and the label-ambiguity rule of sort_values/groupby; each is exercised by the correspondence",
         "filter_clusters: float mean vs exact mean decided with margin >= 1e-9 (sizes are multiples of 1/4; exact ties at dyadic means are exercised; smaller non-zero margins are skipped and counted)",
@@ -725,7 +811,8 @@ def run(chk):
 def replay(chk, path):
     import trackpy as tp
     common.quiet_trackpy()
-    chk.coq()
+    if not build(chk):
+        return
     r = json.load(open(path))['replay']
     kind = r.get('kind')
     if kind in ('filter_stubs', 'filter_clusters', 'filter_clusters_quantile'):
